@@ -222,10 +222,12 @@ impl<T> Ref<T> {
 }
 
 impl Store {
-    pub(super) fn last_dependent_access(&self, operation: Operation) -> Option<&Access> {
-        match &self.entries[operation.obj.index] {
+    pub(super) fn last_dependent_accesses(&self, operation: Operation) -> Vec<&Access> {
+        let single = match &self.entries[operation.obj.index] {
             Entry::Arc(entry) => entry.last_dependent_access(operation.action.into()),
-            Entry::Atomic(entry) => entry.last_dependent_access(operation.action.into()),
+            Entry::Atomic(entry) => {
+                return entry.last_dependent_accesses(operation.action.into());
+            }
             Entry::Mutex(entry) => entry.last_dependent_access(),
             Entry::Condvar(entry) => entry.last_dependent_access(),
             Entry::Notify(entry) => entry.last_dependent_access(),
@@ -235,19 +237,22 @@ impl Store {
                 "object is not branchable {:?}; ref = {:?}",
                 obj, operation.obj
             ),
-        }
+        };
+
+        single.into_iter().collect()
     }
 
     pub(super) fn set_last_access(
         &mut self,
         operation: Operation,
+        thread_id: usize,
         path_id: usize,
         dpor_vv: &VersionVec,
     ) {
         match &mut self.entries[operation.obj.index] {
             Entry::Arc(entry) => entry.set_last_access(operation.action.into(), path_id, dpor_vv),
             Entry::Atomic(entry) => {
-                entry.set_last_access(operation.action.into(), path_id, dpor_vv)
+                entry.set_last_access(operation.action.into(), thread_id, path_id, dpor_vv)
             }
             Entry::Mutex(entry) => entry.set_last_access(path_id, dpor_vv),
             Entry::Condvar(entry) => entry.set_last_access(path_id, dpor_vv),
